@@ -8,7 +8,6 @@
            Locate/Locate.v   (property C10's model) for the tie to label indexing.
    Kept findings mirrored by the models, each with a `_refuted` witness and the guarded statements:
      NEW  a label that does not stand alone in its bracket            C16_label_in_nested_bracket_refuted, C16_label_slice_across_lines_refuted
-     NEW  the integer end of a mixed slice X[`a`:3] is inclusive      C16_mixed_slice_integer_stop_refuted
      NEW  a label slice with a negative step is not inclusive         C16_label_slice_negative_step_refuted
    WHAT THE MODEL DOES NOT SAY (reviewer-E 3): CPython's evaluation of the final text is the Section variable
      pyeval : string -> ns V -> pyres V, a PURE function of the text and the namespace.  "eval() never alters the container or
@@ -20,7 +19,8 @@
      is not bound (checked by the harness, kind `model`).  Theorems that merely unfold a definition and are not counted as
      covering a clause: C16_lead_eq_lag_neg, C16_dlog_eq_diff_log, C16_eval_text_is_rewrite (after rewrite_no_tick_identity),
      C16_eval_undefined_name (the definition of convert), C16_namespace_precedence (a fact about dict.update).
-   Repaired since round 1 and now proved positively: #15 (fix 24bdfbd) — C16_positional_brackets_untouched.
+   Repaired since round 1 and now proved positively: #15 (fix 24bdfbd) — C16_positional_brackets_untouched; the integer end of
+   a mixed slice (fix 967c56d) — C16_mixed_slice_rewrite, C16_mixed_slice_integer_end_keeps_its_meaning.
      #26  diff(x, 0) = x                                               C16_diff_zero_formula_refuted
      NEW  labels with colon / closing bracket / edge backtick          C16_label_with_colon_refuted, C16_label_with_bracket_or_edge_backtick_refuted
      NEW  module globals / Python builtins visible to the expression   C16_undefined_name_leak_refuted
@@ -398,41 +398,31 @@ Section C16_rewrite.
       Ret ("[" ++ Z_to_string (snd (start_of la)) ++ ":" ++ Z_to_string (snd (bump (stop_of lb))) ++ ":" ++ "" ++ "]").
   Proof. exact (label_slice_rewrite_any_loc has locate a b la lb). Qed.
 
-  (* ---- MIXED brackets: a slice with a backticked label at one end and a plain text at the other still reaches the callback.
-          Items: MLab a l = `a` resolving to l; MPlain p = the text p ("" = open end).  m_val: the text written for an item —
-          a label's start / inclusive stop; a plain item through int(): as written if it is the start, INCREMENTED BY ONE if it is
-          the stop (X[`a`:3] selects position(a)..3 inclusive); ValueError if int() rejects it ---- *)
+  (* ---- MIXED brackets: a slice with a backticked label at one end and a plain text at the other reaches the callback (it holds
+          a backtick).  Since fix 967c56d the callback resolves only items holding a label.  Items: MLab a l = `a` resolving
+          to l; MPlain p = the plain text p ("" = open end).  m_val: the text written for an item — a label's start / its
+          INCLUSIVE stop; a plain item ITSELF (after str.strip()): an integer, an arithmetic expression, a name keep their
+          ordinary Python meaning (X[`2001`:3] = X[1:3:], X[`2001`:-1] = X[1:-1:], X[`2001`:n-1] = X[1:n-1:]) ---- *)
   Theorem C16_mixed_slice_rewrite (x y : mpart) :
     m_ok has locate x -> m_ok has locate y ->
-    resolve_group has locate (m_text x ++ ":" ++ m_text y) =
-      match m_val x false with
-      | Raise e => Raise e
-      | Ret a => match m_val y true with
-                 | Raise e => Raise e
-                 | Ret b => Ret ("[" ++ a ++ ":" ++ b ++ ":" ++ "" ++ "]")
-                 end
-      end.
+    resolve_group has locate (m_text x ++ ":" ++ m_text y) = Ret ("[" ++ m_val x false ++ ":" ++ m_val y true ++ ":" ++ "" ++ "]").
   Proof. exact (mixed_slice_rewrite has locate x y). Qed.
 
   Theorem C16_mixed_slice_step_rewrite (x y : mpart) (ps : string) :
     m_ok has locate x -> m_ok has locate y -> no_colon ps ->
     resolve_group has locate (m_text x ++ ":" ++ m_text y ++ ":" ++ ps) =
-      match m_val x false with
-      | Raise e => Raise e
-      | Ret a => match m_val y true with
-                 | Raise e => Raise e
-                 | Ret b => Ret ("[" ++ a ++ ":" ++ b ++ ":" ++ strip is_py_space ps ++ "]")
-                 end
-      end.
+      Ret ("[" ++ m_val x false ++ ":" ++ m_val y true ++ ":" ++ strip is_py_space ps ++ "]").
   Proof. exact (mixed_slice_step_rewrite has locate x y ps). Qed.
 
+  (* label start, integer stop: the integer is an ordinary (exclusive) Python stop *)
   Theorem C16_mixed_label_start_int_stop (a : string) (pa z : Z) (n : nat) :
     no_tick a -> no_colon a -> a ~> LocI PyInt pa ->
     exists inner,
       resolve_group has locate (("`" ++ a ++ "`") ++ ":" ++ Z_to_string z) = Ret ("[" ++ inner ++ "]") /\
-      index_sem n inner = Some (py_slice_positions n (Some pa) (Some (z + 1)) 1).
+      index_sem n inner = Some (py_slice_positions n (Some pa) (Some z) 1).
   Proof. exact (label_start_int_stop has locate a pa z n). Qed.
 
+  (* integer start, label stop: the start as written, the label's position inclusive *)
   Theorem C16_mixed_int_start_label_stop (z : Z) (b : string) (pb : Z) (n : nat) :
     no_tick b -> no_colon b -> b ~> LocI PyInt pb ->
     exists inner,
@@ -440,10 +430,12 @@ Section C16_rewrite.
       index_sem n inner = Some (py_slice_positions n (Some z) (Some (pb + 1)) 1).
   Proof. exact (int_start_label_stop has locate z b pb n). Qed.
 
-  Theorem C16_mixed_slice_non_literal (a : string) (l : loc) (p : string) :
-    no_tick a -> no_colon a -> a ~> l -> no_tick p -> no_colon p -> opt_int p = None ->
-    resolve_group has locate (("`" ++ a ++ "`") ++ ":" ++ p) = Raise ValueError.
-  Proof. exact (mixed_slice_non_literal has locate a l p). Qed.
+  (* a plain item that is no integer literal is copied too (before the fix: ValueError from int()) *)
+  Theorem C16_mixed_slice_plain_item_verbatim (a : string) (l : loc) (p : string) :
+    no_tick a -> no_colon a -> a ~> l -> no_tick p -> no_colon p ->
+    resolve_group has locate (("`" ++ a ++ "`") ++ ":" ++ p) =
+      Ret ("[" ++ Z_to_string (snd (start_of l)) ++ ":" ++ strip is_py_space p ++ ":" ++ "" ++ "]").
+  Proof. exact (mixed_slice_plain_item_verbatim has locate a l p). Qed.
 
   (* more than three items: ValueError *)
   Theorem C16_too_many_items (pa pb pc rest : string) :
@@ -522,15 +514,14 @@ End C16_rewrite.
 Theorem C16_scan_partitions (s : string) : sconcat (map piece_src (scan s)) = s.
 Proof. exact (scan_partitions s). Qed.
 
-(* NEW finding (mixed-slice-integer-end): "positional ... slices keep their ordinary Python meaning wherever they appear" fails for the
-   integer end of a MIXED slice: the callback adds one to every built-in-int stop, label or not, and sends every plain item
-   through int() *)
-Theorem C16_mixed_slice_integer_stop_refuted :
-  exists (sp : span_model),
-    eval_text_span sp "X[`2001`:3]" = Ret "X[1:4:]" /\ index_sem 5 "1:4:" = Some [1; 2; 3]%nat /\ index_sem 5 "1:3" = Some [1; 2]%nat /\
-    eval_text_span sp "X[`2001`:-1]" = Ret "X[1:0:]" /\ index_sem 5 "1:0:" = Some [] /\ index_sem 5 "1:-1" = Some [1; 2; 3]%nat /\
-    eval_text_span sp "X[`2001`:2-1]" = Raise ValueError.
-Proof. exact mixed_slice_integer_stop_refuted. Qed.
+(* fix 967c56d at work (round-3 finding mixed-slice-integer-end, repaired): the integer end of a mixed slice keeps its meaning *)
+Theorem C16_mixed_slice_integer_end_keeps_its_meaning :
+  let sp := SpanSeq [LInt 2000; LInt 2001; LInt 2002; LInt 2003; LInt 2004] in
+  eval_text_span sp "X[`2001`:3]" = Ret "X[1:3:]" /\ index_sem 5 "1:3:" = index_sem 5 "1:3" /\
+  eval_text_span sp "X[`2001`:-1]" = Ret "X[1:-1:]" /\ index_sem 5 "1:-1:" = Some [1; 2; 3]%nat /\
+  eval_text_span sp "X[`2001`:2-1]" = Ret "X[1:2-1:]" /\
+  eval_text_span sp "X[ 1 : `2003` ]" = Ret "X[1:4:]".
+Proof. exact mixed_slice_integer_end_keeps_its_meaning. Qed.
 
 (* ---- label slices with a NEGATIVE step.  index_sem_any = Python's reading of an integer-literal subscript for either sign of
         the step (extends index_sem; validated against CPython by the `sem` cases).  The text written does not depend on the step:
@@ -1060,7 +1051,7 @@ Print Assumptions C16_mixed_slice_rewrite.
 Print Assumptions C16_mixed_slice_step_rewrite.
 Print Assumptions C16_mixed_label_start_int_stop.
 Print Assumptions C16_mixed_int_start_label_stop.
-Print Assumptions C16_mixed_slice_non_literal.
+Print Assumptions C16_mixed_slice_plain_item_verbatim.
 Print Assumptions C16_scan_partitions.
 Print Assumptions C16_label_in_nested_bracket_refuted.
 Print Assumptions C16_label_slice_across_lines_refuted.
@@ -1074,7 +1065,7 @@ Print Assumptions C16_label_slice_across_lines_unchanged.
 Print Assumptions C16_eval_positional_brackets_untouched.
 Print Assumptions C16_eval_text_is_rewrite.
 Print Assumptions C16_eval_has_no_memory.
-Print Assumptions C16_mixed_slice_integer_stop_refuted.
+Print Assumptions C16_mixed_slice_integer_end_keeps_its_meaning.
 Print Assumptions C16_index_sem_any_extends.
 Print Assumptions C16_label_slice_neg_step_positions.
 Print Assumptions C16_label_slice_negative_step_refuted.
